@@ -162,6 +162,9 @@ def str_method(I, recv, k, name, args, kwargs):
                 raise PyRaise(ExcVal(ValueError))
         return res
     if name == 'rfind':
+        m = p.engine.models.get(('strmethod', 'rfind'))
+        if m is not None:
+            return m.fn(I, [recv] + a, kwargs)
         raise Unsupported('rfind on symbolic string')
     if name == 'lower':
         return Sym(k, UF_LOWER(s)) if not _note(p, 'str.lower') else None
@@ -359,7 +362,7 @@ def py_isinstance(I, v, cls):
         if cbt is not None and not all(issubclass(v.schema.cls, c) for c in classes if True) :
             # the dynamic class of a rule object is determined by its (immutable) type constant
             from . import heap as H
-            tt = H.read_field(I, v, 'type').t
+            tt = H.read_field(I, v, getattr(v.schema, 'class_field', 'type')).t
             hits = [tt == tv for tv, k in cbt.items() if any(issubclass(k, c) for c in classes)]
             if any(issubclass(v.schema.cls, c) for c in classes) and len(hits) == len(cbt):
                 return True
@@ -651,6 +654,14 @@ def _regex_match(I, pattern, flags, text, pos, mode):
     t = lift(text)
     posv = to_int(pos)
     rest = z3.SubString(t, posv, z3.Length(t) - posv) if not (isinstance(pos, int) and pos == 0) else t
+    lits = _finite_literals(pattern, flags)
+    if lits is not None and mode == 'match':
+        # a production that is a choice of literal strings, none a prefix of another: the match is decided by prefix tests
+        for lt_ in lits:
+            if I.p.choose(z3.PrefixOf(mk_str(lt_), rest)):
+                I.p.assume(z3.SubString(t, posv, z3.IntVal(len(lt_))) == mk_str(lt_))
+                return Obj(MatchStub, {'found': lt_, 'start_': pos, 'subject': text})
+        return None
     if mode == 'match':
         lang = tr.match_language()
     elif mode == 'fullmatch':
@@ -673,6 +684,36 @@ def _regex_match(I, pattern, flags, text, pos, mode):
                 p.assume(found.t == rest)
         return Obj(MatchStub, {'found': found, 'start_': st, 'subject': text})
     return None
+
+
+_FL_CACHE = {}
+
+
+def _finite_literals(pattern, flags):
+    key = (pattern, flags)
+    if key in _FL_CACHE:
+        return _FL_CACHE[key]
+    res = None
+    try:
+        import re._parser as sp
+        import re._constants as sc
+        if not (flags & _re_mod.I):
+            tree = list(sp.parse(pattern, flags))
+            while len(tree) == 1 and tree[0][0] is sc.SUBPATTERN:
+                tree = list(tree[0][1][3])
+            alts = None
+            if len(tree) == 1 and tree[0][0] is sc.BRANCH:
+                alts = [list(a) for a in tree[0][1][1]]
+            elif tree and all(op is sc.LITERAL for op, _ in tree):
+                alts = [tree]
+            if alts and all(all(op is sc.LITERAL for op, _ in a) and a for a in alts) and len(alts) <= 4:
+                lits = [''.join(chr(av) for _, av in a) for a in alts]
+                if not any(x != y and y.startswith(x) for x in lits for y in lits):
+                    res = lits
+    except Exception:
+        res = None
+    _FL_CACHE[key] = res
+    return res
 
 
 class MatchStub:
